@@ -46,6 +46,8 @@ func main() {
 	tags := flag.String("tags", "gosymx,math_big_pure_go,purego", "build tags for loading")
 	skip := flag.String("skip", "", "comma-separated functions whose calls are skipped (return zero values)")
 	bigw := flag.Int("bigw", 128, "magnitude width of the symbolic math/big.Int model")
+	bigarith := flag.String("bigarith", "", "big.Int Mul/Mod model: empty = bit-vector arithmetic, uf = uninterpreted functions with the contract 0 <= Mod < y")
+	preempt := flag.Int("preempt", 0, "budget of scheduler preemptions per path at synchronisation operations (0 = cooperative only)")
 	stopv := flag.Bool("stop-on-violation", false, "stop at the first violation")
 	flag.Parse()
 
@@ -144,6 +146,8 @@ func main() {
 		Redirects:     redirects,
 		SkipFuncs:     skipSet(*skip),
 		BigW:          *bigw,
+		BigArith:      *bigarith,
+		Preempt:       *preempt,
 		Trace:         *trace,
 		StopOnViolate: *stopv,
 	}
